@@ -253,7 +253,15 @@ def _slice_values(ctx, f, e, at, depth=0, seen=None):
                 if val is not None:
                     out += _slice_values(ctx, f, val, d, depth + 1, seen)
         elif isinstance(x, ast.Attribute) and isinstance(x.value, ast.Name) and x.value.id == "self" and f.cls:
-            for cq in ctx.m.mro(f.cls):
+            # `self` may be an instance of a subclass: its stores into the field count as well
+            def runs_f(c_):
+                q_ = ctx.m.method(c_, f.name)
+                if q_ == f.qual:
+                    return True  # inherited as is
+                g_ = ctx.m.funcs.get(q_)
+                return g_ is not None and any(isinstance(c2.func, ast.Attribute) and c2.func.attr == f.name and isinstance(c2.func.value, ast.Call) and isinstance(c2.func.value.func, ast.Name) and c2.func.value.func.id == "super" for c2 in calls_in(g_.node))
+
+            for cq in list(ctx.m.mro(f.cls)) + [c_ for c_ in ctx.m.cone(f.cls) if c_ != f.cls and runs_f(c_)]:
                 fld = ctx.m.classes[cq].fields.get(x.attr)
                 if not fld:
                     continue
@@ -274,7 +282,7 @@ def r6(ctx, R):
     (own and inherited) form a separate name space."""
     from .scopekind import ScopeKinds
 
-    R.rule("C05.R6", "a name taken from a declaration's type-spec is looked up starting outside the enclosing derived type, never among that type's members", floor=2, confirmed=2)
+    R.rule("C05.R6", "a name taken from a declaration's type-spec is looked up starting outside the enclosing derived type, never among that type's members", floor=1, confirmed=2)
     lf = lookup_func(ctx)
     obj = ctx.m.cname.get("FortranObj")
     cone = set(ctx.m.cone(obj)) if obj else set()
